@@ -148,12 +148,25 @@ impl LogWriter for StdWriter {
                 )
             }
             InnerStdWriter::Buffered(m_w) => {
-                let mut w = m_w.lock().map_err(|_e| io_err("Poison"))?;
+                // The lock must only be taken for the actual writing, not already for the
+                // formatting: a log call within a Display implementation would otherwise
+                // try to take the lock again and block forever.
+                struct LockingWriter<'a>(&'a Mutex<BufWriter<StdStream>>);
+                impl Write for LockingWriter<'_> {
+                    fn write(&mut self, buf: &[u8]) -> std::io::Result<usize> {
+                        // write all at once, to keep the line in one piece
+                        let mut w = self.0.lock().map_err(|_e| io_err("Poison"))?;
+                        w.write_all(buf).map(|()| buf.len())
+                    }
+                    fn flush(&mut self) -> std::io::Result<()> {
+                        self.0.lock().map_err(|_e| io_err("Poison"))?.flush()
+                    }
+                }
                 write_buffered(
                     self.format,
                     now,
                     record,
-                    &mut *w,
+                    &mut LockingWriter(m_w),
                     #[cfg(test)]
                     Some(&self.validation_buffer),
                 )
